@@ -746,7 +746,7 @@ class Chord:
             raise Exception(f'Not compatible type with & {other.__class__}')
 
     def __hash__(self):
-        return hash(self.__repr__())
+        return hash((self.element, self.extension, self.tonality, self.octave, frozenset(self.score.items())))
 
     @property
     def possible_notes(self):
